@@ -547,6 +547,8 @@ pub fn prelude() -> (Vec<RecDecl>, Vec<EnumDecl>, Vec<Func>) {
             filtermap: false,
         },
     ];
+    let mut funcs = funcs;
+    funcs.extend(unit_helpers());
     let recs = vec![RecDecl { name: "R".into(), tparams: vec![], fields: vec![("a".into(), "i32".into()), ("b".into(), "i32".into())] }];
     let enums = vec![EnumDecl {
         name: "P".into(),
@@ -554,6 +556,145 @@ pub fn prelude() -> (Vec<RecDecl>, Vec<EnumDecl>, Vec<Func>) {
         variants: vec![("Two".into(), vec!["i32".into(), "i32".into()]), ("Zero".into(), vec![])],
     }];
     (recs, enums, funcs)
+}
+
+// ---- unit-typed effects -------------------------------------------------
+// A call whose value is `()` has nothing to store, so every place that a value
+// of type `()` can flow into is a place where an implementation may "optimise
+// the store away" and lose the call with it (seeded change C08-5: the operand of
+// `accept` / `reject`). Family: every unit-typed effect expression in every
+// position that takes a unit value.
+
+fn unit_helpers() -> Vec<Func> {
+    let i = Ty::Int(I32);
+    let lit = |v: i128| E::Int(v, None, I32);
+    let emit = |x: E| E::Host("emit_i32".into(), vec![x]);
+    let mark = |k: i128| E::Host("e".into(), vec![lit(k)]);
+    let verdict = Ty::Verdict(Box::new(Ty::Unit), Box::new(Ty::Unit));
+    let f = |name: &str, params: Vec<(&str, Ty)>, ret: Ty, body: Block| Func {
+        name: name.into(),
+        params: params.into_iter().map(|(n, t)| (n.to_string(), t)).collect(),
+        ret,
+        body,
+        filtermap: false,
+    };
+    vec![
+        // script function returning unit
+        f("su", vec![("a", i.clone())], Ty::Unit, blk(vec![S::Expr(emit(var("a")))], None)),
+        // takes a unit value in first / last position
+        f("tu", vec![("u", Ty::Unit), ("b", i.clone())], i.clone(), blk(vec![], Some(var("b")))),
+        f("ut", vec![("b", i.clone()), ("u", Ty::Unit)], i.clone(), blk(vec![], Some(var("b")))),
+        // `return <unit call>` and a unit call as the tail of a unit function
+        f(
+            "ru",
+            vec![("c", Ty::Bool)],
+            Ty::Unit,
+            blk(
+                vec![S::Expr(E::If(Box::new(var("c")), blk(vec![S::Expr(E::Return(Some(Box::new(emit(mark(82))))))], None), None))],
+                Some(emit(mark(83))),
+            ),
+        ),
+        // accept / reject with a host call, a script call and a nested call as operand
+        f(
+            "va",
+            vec![("c", Ty::Bool), ("d", Ty::Bool)],
+            verdict.clone(),
+            blk(
+                vec![
+                    S::Expr(E::If(Box::new(var("c")), blk(vec![S::Expr(E::Accept(Some(Box::new(emit(mark(84))))))], None), None)),
+                    S::Expr(E::If(Box::new(var("d")), blk(vec![S::Expr(E::Reject(Some(Box::new(E::Call("su".into(), vec![mark(85)])))))], None), None)),
+                ],
+                Some(E::Accept(Some(Box::new(emit(bin(BinOp::Add, mark(86), mark(87))))))),
+            ),
+        ),
+        f(
+            "vr",
+            vec![("c", Ty::Bool)],
+            verdict,
+            blk(
+                vec![S::Expr(E::If(Box::new(var("c")), blk(vec![S::Expr(E::Reject(Some(Box::new(emit(mark(88))))))], None), None))],
+                Some(E::Reject(Some(Box::new(E::Call("ru".into(), vec![var("c")]))))),
+            ),
+        ),
+    ]
+}
+
+fn unit_bodies() -> Vec<Block> {
+    let i = Ty::Int(I32);
+    let lit = |v: i128| E::Int(v, None, I32);
+    let emit = |x: E| E::Host("emit_i32".into(), vec![x]);
+    // unit-typed effect expressions
+    let units: Vec<E> = vec![
+        emit(em()),
+        E::Call("su".into(), vec![em()]),
+        E::Host("emit_unit".into(), vec![emit(em())]),
+        E::Block(blk(vec![S::Expr(em())], Some(emit(em())))),
+        E::If(Box::new(ebm(0)), blk(vec![], Some(emit(em()))), Some(blk(vec![], Some(E::Call("su".into(), vec![em()]))))),
+        E::Call("ru".into(), vec![ebm(1)]),
+    ];
+    let verdict_arms = |b1: E, b2: E| {
+        vec![
+            Arm { variant: Some("Accept".into()), binds: vec!["u".into()], guard: None, body: blk(vec![], Some(b1)) },
+            Arm { variant: Some("Reject".into()), binds: vec!["u".into()], guard: None, body: blk(vec![], Some(b2)) },
+        ]
+    };
+    let mut out: Vec<Block> = vec![];
+    // the helper functions with accept / reject / return of a unit call, on every input
+    out.push(blk(vec![], Some(E::Match(Box::new(E::Call("va".into(), vec![var("p"), var("q")])), verdict_arms(em(), em())))));
+    out.push(blk(vec![], Some(E::Match(Box::new(E::Call("vr".into(), vec![var("p")])), verdict_arms(em(), em())))));
+    out.push(blk(vec![S::Expr(E::Call("ru".into(), vec![var("p")]))], Some(em())));
+    for u in &units {
+        let u = || u.clone();
+        // statement; let + use; assignment
+        out.push(blk(vec![S::Expr(u())], Some(em())));
+        out.push(blk(vec![S::Let("x".into(), None, u()), S::Expr(E::Host("emit_unit".into(), vec![var("x")]))], Some(em())));
+        out.push(blk(vec![S::Let("x".into(), Some(Ty::Unit), E::Unit), S::Expr(E::Assign(vec!["x".into()], Box::new(u()))), S::Expr(em())], Some(lit(0))));
+        // argument of a host function / script function (first, last)
+        out.push(blk(vec![S::Expr(E::Host("emit_unit".into(), vec![u()]))], Some(em())));
+        out.push(blk(vec![], Some(E::Call("tu".into(), vec![u(), em()]))));
+        out.push(blk(vec![], Some(E::Call("ut".into(), vec![em(), u()]))));
+        // constructor payloads, matched afterwards
+        out.push(blk(
+            vec![],
+            Some(E::Match(
+                Box::new(E::Ctor("Option".into(), "Some".into(), vec![u()])),
+                vec![
+                    Arm { variant: Some("Some".into()), binds: vec!["v".into()], guard: None, body: blk(vec![], Some(em())) },
+                    Arm { variant: Some("None".into()), binds: vec![], guard: None, body: blk(vec![], Some(lit(0))) },
+                ],
+            )),
+        ));
+        for v in ["Accept", "Reject"] {
+            out.push(blk(
+                vec![S::Let("w".into(), Some(Ty::Verdict(Box::new(Ty::Unit), Box::new(Ty::Unit))), E::Ctor("Verdict".into(), v.into(), vec![u()]))],
+                Some(E::Match(Box::new(var("w")), verdict_arms(em(), em()))),
+            ));
+        }
+        // record fields (unit field first / last), list elements
+        out.push(blk(vec![S::Let("rc".into(), None, E::Rec(None, vec![("a".into(), u()), ("b".into(), em())]))], Some(E::Field(Box::new(var("rc")), "b".into()))));
+        out.push(blk(vec![S::Let("rc".into(), None, E::Rec(None, vec![("b".into(), em()), ("a".into(), u())]))], Some(E::Field(Box::new(var("rc")), "b".into()))));
+        out.push(blk(vec![S::Let("l".into(), None, E::ListLit(vec![u(), u()]))], Some(em())));
+        // comparison of two unit values, block and if values
+        out.push(blk(vec![], Some(bin(BinOp::Eq, u(), u()).pipe_bool())));
+        out.push(blk(vec![], Some(bin(BinOp::Ne, u(), E::Unit).pipe_bool())));
+        out.push(blk(vec![S::Let("x".into(), None, E::Block(blk(vec![S::Expr(em())], Some(u()))))], Some(em())));
+        out.push(blk(
+            vec![S::Let("x".into(), None, E::If(Box::new(ebm(2)), blk(vec![], Some(u())), Some(blk(vec![], Some(u())))))],
+            Some(em()),
+        ));
+        // inside loops: as often as control flow dictates
+        out.push(blk(
+            vec![
+                S::Let("i".into(), Some(i.clone()), lit(0)),
+                S::Expr(E::While(
+                    Box::new(bin(BinOp::Lt, var("i"), lit(2))),
+                    blk(vec![S::Let("x".into(), None, u()), S::Expr(E::Assign(vec!["i".into()], Box::new(bin(BinOp::Add, var("i"), lit(1)))))], None),
+                )),
+            ],
+            Some(em()),
+        ));
+    }
+    out
 }
 
 pub fn entry(name: &str, body: Block) -> Func {
@@ -579,6 +720,7 @@ pub fn all_bodies(tier: Tier) -> Vec<Block> {
     for b in bodies_upto(tier.pick(2, 3), tier == Tier::Thorough) {
         out.push(blk(b, Some(E::Int(0, None, I32))));
     }
+    out.extend(unit_bodies());
     for b in &mut out {
         let mut k = 0;
         number_block(b, &mut k);
